@@ -3,6 +3,8 @@ import Ebu.Generated.Consts
 import Ebu.Model.Inflight
 import Ebu.Model.RegistrySteps
 import Ebu.Proofs.Locks
+import Ebu.Proofs.ConcProgress
+import Ebu.Spec.Flow
 /-!
 C03 — Concurrent use of the API is free of data races and deadlocks.
 
@@ -101,6 +103,52 @@ of the type's string, masked with `numShards - 1` – which is also what the mod
 theorem shard_routing_matches_source :
     Ebu.Generated.Consts.shardIndexIsMask = true ∧ Ebu.Generated.Consts.shardHashIsFnv1a32 = true ∧
     Ebu.Generated.Consts.shardKeyIsTypeString = true := by decide
+
+/-! ### no deadlock (M2, `Ebu/Model/Conc.lean`): every schedule, any number of goroutines -/
+
+/-- DEADLOCK FREEDOM.  Under every schedule of every program – publishers, subscribers, unsubscribers, `Wait`ers,
+async goroutines, Sequential mutexes, the ticket lock of Async+Sequential handlers, handlers that publish – as long
+as some goroutine has not finished, some goroutine can take a step.  The only hypothesis is the one exception the
+property names: there is a rank on event types along which handler bodies never publish upwards and synchronous
+Sequential handlers publish strictly downwards, i.e. no synchronous Sequential handler publishes – directly or through
+other synchronously dispatched handlers – an event that is delivered back to itself. -/
+theorem deadlock_free (ρ : Nat → Nat) (progs : List (List Ebu.Conc.Op)) (hr : Ebu.Conc.Ranked ρ progs)
+    (s : Ebu.Conc.Sys) (h : Ebu.Conc.Reachable progs s) (hu : s.unfinished) : s.canStep :=
+  Ebu.Conc.deadlock_free ρ progs hr s h hu
+
+/-- the hypothesis is satisfiable by a program with a Sequential handler publishing to other Sequential handlers, an
+Async+Sequential handler that publishes its own type, a Once handler with a filter, cancellation and two `Wait`s … -/
+theorem deadlock_free_applies : Ebu.Conc.Ranked Ebu.Conc.ProgressExample.exRank Ebu.Conc.ProgressExample.exProgs :=
+  Ebu.Conc.ProgressExample.exProgs_ranked
+
+/-- … and it cannot be dropped: two synchronous Sequential handlers that publish each other's type deadlock two
+concurrent publishers (a reachable state in which nobody has finished and nobody can move), so that program has no rank -/
+theorem deadlock_needs_the_exception :
+    (Ebu.Conc.Reachable Ebu.Conc.ProgressExample.dlProgs Ebu.Conc.ProgressExample.dlState ∧
+      Ebu.Conc.ProgressExample.dlState.unfinished ∧ ¬ Ebu.Conc.ProgressExample.dlState.canStep) ∧
+    ¬ ∃ ρ, Ebu.Conc.Ranked ρ Ebu.Conc.ProgressExample.dlProgs :=
+  ⟨Ebu.Conc.ProgressExample.dl_deadlock, Ebu.Conc.ProgressExample.dlProgs_not_ranked⟩
+
+/-! ### obligations on the control flow of the CURRENT source (`Ebu/Generated/Flow.lean`, regenerated on every run)
+
+The steps of M2 are what `PublishContext` does in this order; each obligation names one modelling assumption. -/
+
+/-- OBLIGATION: the snapshot is copied under the shard's read lock and the lock is released before the first
+handler is looked at; hooks and persistence run before it, with no lock held -/
+theorem flow_publish_prelude : Ebu.Flow.publishPrelude = true := by decide +kernel
+
+/-- OBLIGATION: the in-flight count is taken by the publisher before the goroutine exists and given back by a
+`defer` registered first thing in the goroutine (so `Wait` cannot miss a goroutine, and a panic or a cancelled
+context cannot leak a count) -/
+theorem flow_inflight_brackets_goroutine : Ebu.Flow.inflightBracketsGoroutine = true := by decide +kernel
+
+/-- OBLIGATION: tickets are taken by the publisher, turns awaited in the goroutine and released by a `defer`
+registered at once (a skipped or panicking invocation passes the turn on: no goroutine waits for a turn that never comes) -/
+theorem flow_ticket_discipline : Ebu.Flow.ticketDiscipline = true := by decide +kernel
+
+/-- OBLIGATION: the Sequential mutex is unlocked by a `defer` registered right after the lock, and the recovering
+`defer` of a handler invocation is registered before anything else -/
+theorem flow_handler_bracket : Ebu.Flow.handlerBracket = true := by decide +kernel
 
 /-- non-vacuity: the tables are not empty and contain writes, reads and atomics -/
 example : accessFacts.length > 40 ∧ accessFacts.any (·.write) = true ∧ accessFacts.any (·.atomic) = true ∧
